@@ -25,6 +25,7 @@ var SharedLists = map[string][]string{
 	"L4": {"Zlib", "MIT"},
 	"L5": {"zlib", "ISC", "isc", "MIT", "Apache-2.0", "0BSD", "mit"},
 	"L6": {"MIT AND ISC", "LicenseRef-q", "MIT WITH Bison-exception-2.2"},
+	"L8": {"LGPL-2.0+", "JSON", "LicenseRef-a", "LGPL-3.0-only"},
 	"L7": {"mit and isc", "licenseref-q", "MIT and ISC", "mit with bison-exception-2.2", "LicenseRef-Q"},
 }
 
@@ -67,6 +68,9 @@ var Alphabet = []Call{
 	{Fn: "ExtractLicenses", Expr: "mit and isc"},
 	{Fn: "Satisfies", Expr: "mit AND isc", List: "L4"},
 	{Fn: "Satisfies", Expr: "MIT and ISC", List: "L4"},
+	// long expressions (> 16 tokens): buffers that are only pooled / cached above a size threshold
+	{Fn: "ExtractLicenses", Expr: "MIT AND ISC AND Zlib AND 0BSD AND Apache-2.0 AND BSD-3-Clause AND MPL-2.0 AND Unlicense AND X11 AND NTP AND W3C"},
+	{Fn: "Satisfies", Expr: "(Vim OR TCL OR Zed OR curl OR Ruby OR PHP-3.01 OR OFL-1.1 OR NCSA OR Libpng OR JSON) AND LicenseRef-a AND LGPL-2.1+", List: "L8"},
 }
 
 // instance lists: the slices actually passed (shared between calls that name the same list)
